@@ -84,6 +84,11 @@ func (ev *dtEval) canon(x ast.Expr, fr *dtFrame) string {
 		}
 		if d, paren := ev.aliasOf(v, fr); d != nil {
 			if paren {
+				switch an.Unparen(d).(type) {
+				case *ast.Ident, *ast.SelectorExpr, *ast.IndexExpr, *ast.CallExpr, *ast.BasicLit:
+					// a primary expression needs no grouping: `e := $.xs[i]; e.f` reads `$.xs[i].f`
+					return ev.canon(d, fr)
+				}
 				return "(" + ev.canon(d, fr) + ")"
 			}
 			return ev.canon(d, fr)
